@@ -20,7 +20,7 @@ from common import Broken, Violation
 from props import c15
 
 MANIFEST = {
-    "text": "26 theorems (Props/C05.v) about a hand-written Gallina model of stix2/versioning.py over ALL clock readings (Z microseconds), all "
+    "text": "30 theorems (Props/C05.v) about a hand-written Gallina model of stix2/versioning.py over ALL clock readings (Z microseconds), all "
             "objects/dicts (association lists), all change sets, all operation chains and an ARBITRARY class constructor "
             "(any acceptance test, any per-property cleaning): the serialized modified time of a new version is strictly later "
             "than the original's at the spec version's precision whatever the clock reads (fudge_strict_20/21, nv_strict), no "
@@ -30,7 +30,8 @@ MANIFEST = {
             "type/id/created/created_by_ref are kept (nv_identity), exactly the requested changes are applied and None removes, "
             "for objects up to the constructor's cleaning (nv_exact, nv_exact_dict), unmodifiable and SCO-id-contributing "
             "properties, non-later supplied modified times and revoked objects are refused (nv_unmodifiable, nv_sco_locked, "
-            "supplied_modified_strict, revoked_final, revoked_chain_ends), ser_value is what the C15-written text denotes "
+            "supplied_modified_strict, revoked_final, revoked_chain_ends) with the exception named when the earlier checks pass "
+            "(revoked_raises, revoke_revoked_raises, unmodifiable_raises, supplied_not_later_raises), ser_value is what the C15-written text denotes "
             "(ser_is_serialized_text, nv_strict_text), and the generated tables agree with the frozen specification tables.",
     "design_ref": "DESIGN.md 6/C05, Appendix A.1; design_notes/C15-C05.md",
     "note": "Plus 13 source-text obligations (Props/C05Src.v) on a record read from the ast of stix2/versioning.py on every run "
@@ -44,7 +45,10 @@ MANIFEST = {
             "process (no repo hook): quick 675 chains / ~6 400 operations, thorough 3 375 chains / ~35 000 operations, on objects "
             "and dicts of all 37 versionable types of both spec versions. The class constructor is abstract in the theorems "
             "(arbitrary acceptance test and cleaning); the correspondence uses legal, already clean change sets. "
-            "Correspondence/oracle-only: 'original untouched' (observed on every operation; C13 proves it). Assumed: keyword "
+            "Correspondence/oracle-only: 'original untouched' (observed on every operation; C13 proves it); Mappings that are not "
+            "dicts (collections.UserDict) are run on the implementation and judged by the oracle only -- the model has no such "
+            "carrier (known finding C05-non-dict-mapping-mixed-precision-rules until the proposed fix is applied). The model "
+            "takes uuid.UUID() to accept the canonical 36-character form only. Assumed: keyword "
             "arguments and dict keys distinct; spec versions 2.0 and 2.1; for dict chains no change set rewrites spec_version "
             "(shown necessary); timestamps within years 1..9999. No axioms.",
     "technique": "Coq proof over a hand-written executable model + generated tables + source-text record + per-run correspondence with the implementation",
@@ -738,7 +742,7 @@ def oracle_case(case, res):
             new_t = ser(ver, instant_of_value(sget(new, "modified")))
             if new_t is None or old_t is None or not new_t > old_t:
                 viol(i, "modified of the new version (%s us serialized) is not strictly later than the original's (%s us)" % (new_t, old_t),
-                     FINDING_MAPPING if (carrier == "mapping" and ver == "2.1" and supplied is None) else None)
+                     FINDING_MAPPING if (carrier == "mapping" and supplied is None) else None)
             if sup_t is not None and old_t is not None and not sup_t > old_t:
                 viol(i, "a caller-supplied modified time that is not strictly later was accepted")
             if sup_t is not None and new_t != sup_t:
@@ -747,7 +751,7 @@ def oracle_case(case, res):
             if st["ser"] is not None:
                 if tt is None or (cur_text_t is not None and not tt > cur_text_t):
                     viol(i, "serialized modified %r is not strictly later than the previous version's" % st["ser"],
-                         FINDING_MAPPING if (carrier == "mapping" and ver == "2.1" and supplied is None) else None)
+                         FINDING_MAPPING if (carrier == "mapping" and supplied is None) else None)
                 cur_text_t = tt
             chain_sers.append(new_t)
             state = new
@@ -759,12 +763,14 @@ def oracle_case(case, res):
                     must_refuse = True        # MarkingNotFoundError: nothing to remove
             if op.get("legal") is True and not must_refuse and case["kind"] in ("versionable", "unregistered", "sco-dict"):
                 f = FINDING_NAIVE if (naive_in and st["exc"] == "TypeError") else None
+                if carrier == "mapping" and supplied is not None and st["exc"] == "InvalidValueError":
+                    f = FINDING_MAPPING       # same cause: the supplied time is compared after millisecond truncation
                 viol(i, "a legal operation on a versionable %s was refused with %s" % (carrier, st["exc"]), f)
     for a, b in zip(chain_sers, chain_sers[1:]):
         if not b > a:
             out.append(Violation("serialized modified times do not strictly increase along the chain (%s then %s)" % (a, b),
                                  {"case": case, "check": "chain"},
-                                 FINDING_MAPPING if (carrier == "mapping" and ver == "2.1") else None))
+                                 FINDING_MAPPING if carrier == "mapping" else None))
             break
     return out
 
